@@ -14,6 +14,7 @@ func init() {
 			"ids enter the free set only through the release path (Free makes pages pending, never free); frees and rollbacks are recorded under the writer's own txid; the old node page is freed before its replacement is allocated; the meta slot alternates (txid%2) and only init/write/writeMeta write the file. " +
 			"NOT decided: that release/releaseRange compute the right bound from the reader ids, and that Allocate returns only free runs (integer reasoning over runtime sets; see C09). Round 3: txPending.ids/alloctx stay index-aligned; hashMap.Allocate hands out only spans of at least n pages. Round 4: the free list rebuilt by scanning comes from the integrity check's reachability walk (re-evaluated).",
 		Run: func(c *Ctx) {
+			c09R5(c, "C06.R13") // a re-initialised backend must forget every span, else stale spans hand out live pages (seed C06e)
 			c13R1(c, "C06.R12") // a free list rebuilt by scanning must not list a reachable page as free (it would be handed out and overwritten)
 			rulePendingSlicesAligned(c, "C06.R10") // a page still visible to a reader is released (and overwritten) if its allocating txid is mispaired
 			ruleSpanCoversRequest(c, "C06.R11") // a too-short span hands live pages to the writer
